@@ -1,7 +1,850 @@
-use crate::case::Case;
-use crate::fault::Fault;
-use crate::run::Failure;
+//! Crash engine: disk images at arbitrary crash points are rebuilt from the effect trace of a
+//! fault-free execution (the code under test is never interrupted), recovered with the real
+//! `open`, and judged by the property-specific oracles.
+use std::collections::{BTreeMap, BTreeSet};
+use std::rc::Rc;
 
-pub fn evaluate_crash(_prop: &str, _case: &Case, _fault: &Fault) -> Vec<Failure> {
-    Vec::new()
+use crate::case::Case;
+use crate::fault::{CrashPoint, Fault};
+use crate::gen::{Gen, GenCfg, Profile};
+use crate::model::{Knobs, Model, Obs, Op, Outcome, Policy, Rec};
+use crate::prng::{mix, Rng};
+use crate::run::{Driver, Failure};
+use crate::simfs::{DNode, Eff, Effect, FsState, Image, Node, BLOCK};
+use crate::world::{OpenFail, World};
+
+// ------------------------------------------------------------------ image reconstruction
+
+/// Applies the first `n` bytes of a write effect.
+pub fn apply_partial(st: &mut FsState, eff: &Eff, n: usize) {
+    if let Eff::Write { ino, off, data, .. } = eff {
+        st.write_at(*ino, *off as usize, &data[..n.min(data.len())]);
+    }
+}
+
+/// Global trace index of a crash point given relative to its op.
+pub fn global_index(d: &Driver, at: &CrashPoint) -> Option<usize> {
+    if at.op == d.steps.len() {
+        return if at.eff_in_op == 0 { Some(d.world.trace_len()) } else { None };
+    }
+    let s = d.steps.get(at.op)?;
+    let idx = s.eff_start + at.eff_in_op;
+    if idx > s.eff_end {
+        return None;
+    }
+    Some(idx)
+}
+
+/// OS-view image after effects [0, idx) (+ `byte` bytes of effect idx): the process-crash model.
+pub fn os_image_at(d: &Driver, idx: usize, byte: Option<usize>) -> Image {
+    let fs = d.world.fs.borrow();
+    let mut st = fs.bases[0].1.clone();
+    for e in &fs.trace[..idx] {
+        st.apply(&e.eff);
+    }
+    if let (Some(n), Some(e)) = (byte, fs.trace.get(idx)) {
+        apply_partial(&mut st, &e.eff, n);
+    }
+    st.to_image()
+}
+
+enum Pending<'a> {
+    SetLen(u64),
+    Write(u64, &'a [u8]),
+}
+
+enum DirOp {
+    Create(String, usize),
+    Unlink(String),
+}
+
+/// Power-loss image: durable state (per-inode content as of its last fsync, directory as of the
+/// last directory fsync) plus a seeded part of the unsynced effects: file data per 512-byte
+/// sector and each set_len independently ("unsynced bytes lost"), directory operations
+/// (create / unlink) as a prefix of their program order (ordered metadata journal).
+pub fn powerloss_image(trace: &[Effect], base: &FsState, idx: usize, byte: Option<usize>, seed: u64) -> Image {
+    let mut os = base.clone();
+    let mut dur_dir = base.dir.clone();
+    let mut dur_data: Vec<Rc<Vec<u8>>> = base.inodes.clone();
+    let mut pend: Vec<Vec<Pending>> = base.inodes.iter().map(|_| Vec::new()).collect();
+    let mut pend_dir: Vec<DirOp> = Vec::new();
+    for e in &trace[..idx] {
+        match &e.eff {
+            Eff::Create { name, ino } => {
+                os.apply(&e.eff);
+                dur_data.push(Rc::new(Vec::new()));
+                pend.push(Vec::new());
+                pend_dir.push(DirOp::Create(name.clone(), *ino));
+            }
+            Eff::SetLen { ino, len, .. } => {
+                os.apply(&e.eff);
+                pend[*ino].push(Pending::SetLen(*len));
+            }
+            Eff::Write { ino, off, data, .. } => {
+                os.apply(&e.eff);
+                pend[*ino].push(Pending::Write(*off, data));
+            }
+            Eff::SyncData { ino, .. } => {
+                dur_data[*ino] = os.inodes[*ino].clone();
+                pend[*ino].clear();
+            }
+            Eff::SyncDir => {
+                dur_dir = os.dir.clone();
+                pend_dir.clear();
+            }
+            Eff::Unlink { name, .. } => {
+                os.apply(&e.eff);
+                pend_dir.push(DirOp::Unlink(name.clone()));
+            }
+            _ => {}
+        }
+    }
+    if let (Some(n), Some(e)) = (byte, trace.get(idx)) {
+        if let Eff::Write { ino, off, data, .. } = &e.eff {
+            pend[*ino].push(Pending::Write(*off, &data[..n.min(data.len())]));
+        }
+    }
+    let mut rng = Rng::new(seed);
+    // keep probability in 1/8: mode 0 nothing, 1 everything, otherwise a per-image rate
+    let keep = match seed % 4 {
+        0 => 0u64,
+        1 => 8,
+        2 => 4,
+        _ => *rng.pick(&[1u64, 2, 6, 7]),
+    };
+    let mut coin = |rng: &mut Rng| rng.below(8) < keep;
+    let mut dir = dur_dir;
+    // namespace operations are journaled in order: a seeded *prefix* of them survives
+    let n_dir = match keep {
+        0 => 0,
+        8 => pend_dir.len(),
+        _ => rng.usize_below(pend_dir.len() + 1),
+    };
+    for op in pend_dir.into_iter().take(n_dir) {
+        {
+            match op {
+                DirOp::Create(name, ino) => {
+                    dir.insert(name, DNode::File(ino));
+                }
+                DirOp::Unlink(name) => {
+                    dir.remove(&name);
+                }
+            }
+        }
+    }
+    let mut image = Image::new();
+    for (name, node) in dir {
+        let n = match node {
+            DNode::Dir => Node::Dir,
+            DNode::Symlink => Node::Symlink,
+            DNode::File(ino) => {
+                let mut data: Vec<u8> = (*dur_data[ino]).clone();
+                for p in &pend[ino] {
+                    match p {
+                        Pending::SetLen(len) => {
+                            if coin(&mut rng) {
+                                data.resize(*len as usize, 0);
+                            }
+                        }
+                        Pending::Write(off, bytes) => {
+                            let mut pos = 0usize;
+                            while pos < bytes.len() {
+                                let abs = *off as usize + pos;
+                                let sector_end = (abs / 512 + 1) * 512;
+                                let take = (sector_end - abs).min(bytes.len() - pos);
+                                if coin(&mut rng) {
+                                    if data.len() < abs + take {
+                                        data.resize(abs + take, 0);
+                                    }
+                                    data[abs..abs + take].copy_from_slice(&bytes[pos..pos + take]);
+                                }
+                                pos += take;
+                            }
+                        }
+                    }
+                }
+                Node::File(Rc::new(data))
+            }
+        };
+        image.insert(name, n);
+    }
+    image
+}
+
+// ------------------------------------------------------------------ recovery helpers
+
+pub fn blocks_on_disk(image: &Image) -> usize {
+    image.values().map(|n| if let Node::File(d) = n { d.len() / BLOCK + 1 } else { 0 }).sum()
+}
+
+/// Opens `image` with the real code under a step budget. Returns the world (open) and its observation.
+pub fn recover(image: &Image, names: &[String], policy: Policy, knobs: &Knobs) -> Result<(World, Obs), (OpenFail, World)> {
+    let mut w = World::new(image, names.to_vec(), policy, knobs.clone());
+    let budget = 400 + 24 * blocks_on_disk(image);
+    w.fs.borrow_mut().set_budget(budget);
+    let res = w.open();
+    w.fs.borrow_mut().clear_budget();
+    match res {
+        Ok(()) => match w.observe() {
+            Ok(obs) => Ok((w, obs)),
+            Err(msg) => Err((OpenFail::Panic(format!("read accessor panicked on the recovered log: {msg}")), w)),
+        },
+        Err(e) => Err((e, w)),
+    }
+}
+
+pub fn open_fail_text(e: &OpenFail) -> String {
+    match e {
+        OpenFail::Io(s) => format!("open returned an I/O error ({s})"),
+        OpenFail::Corruption => "open returned Corruption".to_string(),
+        OpenFail::Panic(s) => format!("open panicked: {s}"),
+        OpenFail::Hang => "open did not terminate within the file-system step budget".to_string(),
+    }
+}
+
+// ------------------------------------------------------------------ allowed-state sets (C02)
+
+#[derive(Clone, Debug, PartialEq, Eq)]
+pub enum Matched {
+    Exact(usize),
+    Partial,
+    No(String),
+}
+
+/// `Partial(M, op)`: op is an in-flight truncate / delete_queue on q.
+pub fn is_partial(m: &Model, op: &Op, obs: &Obs, names: &[String]) -> bool {
+    let (q, upto) = match op {
+        Op::Truncate { q, upto } => (*q, Some(*upto)),
+        Op::Delete { q } => (*q, None),
+        _ => return false,
+    };
+    let name = &names[q];
+    let Some(mq) = m.queues.get(name) else { return false };
+    let want = m.to_obs();
+    // every other queue exactly as in M
+    if obs.queues.len() != want.queues.len() {
+        return false;
+    }
+    for (n, wq) in &want.queues {
+        if n == name {
+            continue;
+        }
+        if obs.queues.get(n) != Some(wq) {
+            return false;
+        }
+    }
+    let Some(oq) = obs.queues.get(name) else { return false };
+    // a suffix of M[q].recs ...
+    if oq.recs.len() > mq.recs.len() || mq.recs[mq.recs.len() - oq.recs.len()..] != oq.recs[..] {
+        return false;
+    }
+    // ... that contains every record the op does not target
+    let untargeted = match upto {
+        Some(p) => mq.recs.iter().filter(|r| r.pos > p).count(),
+        None => 0,
+    };
+    if oq.recs.len() < untargeted {
+        return false;
+    }
+    // next position unchanged
+    oq.last_position == mq.next.checked_sub(1) && oq.last_record == oq.recs.last().copied() && oq.summary_end == oq.last_position
+}
+
+pub fn match_allowed(d: &Driver, b: usize, obs: &Obs) -> Matched {
+    let n = d.steps.len();
+    let mb = &d.models[b.min(n)];
+    if *obs == mb.to_obs() {
+        return Matched::Exact(b);
+    }
+    if b < n {
+        let ma = &d.models[b + 1];
+        if *obs == ma.to_obs() {
+            return Matched::Exact(b + 1);
+        }
+        if is_partial(mb, &d.steps[b].op, obs, &d.names) {
+            return Matched::Partial;
+        }
+        let d0 = obs.diff(&mb.to_obs());
+        let d1 = obs.diff(&ma.to_obs());
+        return Matched::No(format!("vs state before {}: {}; vs state after it: {}", d.steps[b].op.short(), d0, d1));
+    }
+    Matched::No(format!("vs final state: {}", obs.diff(&mb.to_obs())))
+}
+
+// ------------------------------------------------------------------ C12 batch atomicity
+
+/// Every batch appended by ops[..=b] must be recovered whole, or not at all, apart from a leading
+/// part targeted by some truncate/delete of the history.
+pub fn batch_atomicity(d: &Driver, b: usize, obs: &Obs) -> Option<String> {
+    let upto = b.min(d.steps.len().saturating_sub(1));
+    for (i, s) in d.steps.iter().enumerate().take(upto + 1) {
+        let Op::Append { q, lens, uid, .. } = &s.op else { continue };
+        // positions the model assigned (for the in-flight op: what it would assign)
+        let exp = if i < b || i < d.steps.len() { &s.expected } else { continue };
+        let Outcome::Appended { last: Some(last), .. } = exp else { continue };
+        if lens.len() < 2 {
+            continue;
+        }
+        let first = last + 1 - lens.len() as u64;
+        let name = &d.names[*q];
+        let Some(oq) = obs.queues.get(name) else { continue };
+        let recs: Vec<Rec> = lens.iter().enumerate().map(|(k, &l)| Rec::of(first + k as u64, &crate::model::payload(*uid, k as u32, l as usize))).collect();
+        let present: Vec<bool> = recs.iter().map(|r| oq.recs.binary_search_by_key(&r.pos, |x| x.pos).ok().map(|ix| oq.recs[ix] == *r).unwrap_or(false)).collect();
+        let n_present = present.iter().filter(|&&p| p).count();
+        if n_present == 0 || n_present == recs.len() {
+            continue;
+        }
+        // must be a suffix
+        let first_present = present.iter().position(|&p| p).unwrap();
+        if present[first_present..].iter().any(|&p| !p) {
+            return Some(format!("batch of {} #{} recovered with a hole or a missing tail: present = {:?}", s.op.short(), uid, summarize(&present)));
+        }
+        // the missing leading part must be targeted by a truncate / delete later in the history (incl. in flight)
+        let max_missing_pos = recs[first_present - 1].pos;
+        let targeted = d.steps.iter().enumerate().skip(i + 1).take(upto.saturating_sub(i)).any(|(_, t)| match &t.op {
+            Op::Truncate { q: tq, upto } => tq == q && *upto >= max_missing_pos,
+            Op::Delete { q: tq } => tq == q,
+            _ => false,
+        });
+        if !targeted {
+            return Some(format!("batch of {} #{} lost its first {} records although no truncate/delete targets them", s.op.short(), uid, first_present));
+        }
+    }
+    None
+}
+
+fn summarize(p: &[bool]) -> String {
+    p.iter().map(|&b| if b { '1' } else { '0' }).collect()
+}
+
+// ------------------------------------------------------------------ C04 high-water marks as of op b
+
+pub fn high_water(d: &Driver, b: usize) -> BTreeMap<String, u64> {
+    // per queue name, for the incarnation alive in models[b]
+    let mut hw: BTreeMap<(String, u32), u64> = BTreeMap::new();
+    for (i, s) in d.steps.iter().enumerate().take(b) {
+        let after = &d.models[i + 1];
+        match (&s.op, &s.expected) {
+            (Op::Append { q, .. }, Outcome::Appended { last: Some(last), .. }) => {
+                if let Some(mq) = after.queues.get(&d.names[*q]) {
+                    let e = hw.entry((d.names[*q].clone(), mq.incarnation)).or_insert(0);
+                    *e = (*e).max(*last);
+                }
+            }
+            (Op::Truncate { q, upto }, Outcome::Truncated { .. }) => {
+                if let Some(mq) = after.queues.get(&d.names[*q]) {
+                    let e = hw.entry((d.names[*q].clone(), mq.incarnation)).or_insert(0);
+                    *e = (*e).max(*upto);
+                }
+            }
+            _ => {}
+        }
+    }
+    let mb = &d.models[b.min(d.steps.len())];
+    let mut out = BTreeMap::new();
+    for (name, mq) in &mb.queues {
+        if let Some(h) = hw.get(&(name.clone(), mq.incarnation)) {
+            out.insert(name.clone(), *h);
+        }
+    }
+    out
+}
+
+// ------------------------------------------------------------------ the per-crash-point test
+
+#[derive(Default)]
+pub struct CrashStats {
+    pub recovered_exact_before: u64,
+    pub recovered_exact_after: u64,
+    pub recovered_partial: u64,
+    pub second_crashes: u64,
+    pub continuations: u64,
+    pub recovery_wrote: u64,
+}
+
+pub enum Cont<'a> {
+    Generate(u64),
+    Explicit(&'a [Op]),
+}
+
+pub struct CrashOutcome {
+    pub failures: Vec<Failure>,
+    pub cont_used: Vec<Op>,
+    pub matched: Option<Matched>,
+    /// effect trace length of the recovery (for second-crash enumeration)
+    pub recovery_mutations: Vec<usize>,
+}
+
+fn fail(prop: &'static str, clause: &str, b: usize, detail: String) -> Failure {
+    Failure { prop, clause: clause.to_string(), op_index: b, detail }
+}
+
+/// Recovers from `image` (crash while op `b` was in flight) and evaluates C02, C04, C12.
+pub fn test_process_crash(d: &Driver, case: &Case, b: usize, image: &Image, cont: Cont, stats: &mut CrashStats, second: Option<(usize, Option<usize>)>) -> CrashOutcome {
+    let mut out = CrashOutcome { failures: Vec::new(), cont_used: Vec::new(), matched: None, recovery_mutations: Vec::new() };
+    let n = d.steps.len();
+    let policy = if b < n { d.steps[b].policy } else { d.steps.last().map(|s| s.policy).unwrap_or(case.policy) };
+    let where_ = if b < n { format!("crash inside op {} {}", b, d.steps[b].op.short()) } else { "crash after the last op".to_string() };
+    let (mut w, obs) = match recover(image, &d.names, policy, &case.knobs) {
+        Ok(x) => x,
+        Err((e, _)) => {
+            out.failures.push(fail("C02", "open-failed", b, format!("{where_}: {}", open_fail_text(&e))));
+            return out;
+        }
+    };
+    // --- second crash inside recovery: rebuild from the recovery's own trace
+    {
+        let fs = w.fs.borrow();
+        out.recovery_mutations = fs.trace.iter().enumerate().filter(|(_, e)| e.eff.is_mutating()).map(|(i, _)| i).collect();
+    }
+    if !out.recovery_mutations.is_empty() {
+        stats.recovery_wrote += 1;
+    }
+    if let Some((ridx, rbyte)) = second {
+        let image2 = {
+            let fs = w.fs.borrow();
+            let mut st = fs.bases[0].1.clone();
+            for e in &fs.trace[..ridx.min(fs.trace.len())] {
+                st.apply(&e.eff);
+            }
+            if let (Some(nb), Some(e)) = (rbyte, fs.trace.get(ridx)) {
+                apply_partial(&mut st, &e.eff, nb);
+            }
+            st.to_image()
+        };
+        stats.second_crashes += 1;
+        drop(w);
+        match recover(&image2, &d.names, policy, &case.knobs) {
+            Ok((w2, obs2)) => {
+                let m2 = match_allowed(d, b, &obs2);
+                if let Matched::No(diff) = &m2 {
+                    out.failures.push(fail("C02", "second-crash-state", b, format!("{where_}, then a second crash at recovery effect {ridx} (byte {rbyte:?}): recovered state is not an allowed one: {diff}")));
+                    return out;
+                }
+                return finish(d, case, b, w2, obs2, m2, cont, stats, out, &where_);
+            }
+            Err((e, _)) => {
+                out.failures.push(fail("C02", "second-crash-open-failed", b, format!("{where_}, then a second crash at recovery effect {ridx} (byte {rbyte:?}): {}", open_fail_text(&e))));
+                return out;
+            }
+        }
+    }
+    let m = match_allowed(d, b, &obs);
+    finish(d, case, b, w, obs, m, cont, stats, out, &where_)
+}
+
+#[allow(clippy::too_many_arguments)]
+fn finish(d: &Driver, case: &Case, b: usize, w: World, obs: Obs, m: Matched, cont: Cont, stats: &mut CrashStats, mut out: CrashOutcome, where_: &str) -> CrashOutcome {
+    let n = d.steps.len();
+    out.matched = Some(m.clone());
+    // C12 is judged on whatever state was recovered
+    if let Some(msg) = batch_atomicity(d, b, &obs) {
+        out.failures.push(fail("C12", "batch-torn-by-crash", b, format!("{where_}: {msg}")));
+    }
+    let model = match &m {
+        Matched::Exact(j) => {
+            if *j == b {
+                stats.recovered_exact_before += 1;
+            } else {
+                stats.recovered_exact_after += 1;
+            }
+            d.models[(*j).min(n)].clone()
+        }
+        Matched::Partial => {
+            stats.recovered_partial += 1;
+            let mut mm = d.models[b].clone();
+            mm.rebase(&obs);
+            mm
+        }
+        Matched::No(diff) => {
+            out.failures.push(fail("C02", "state-not-allowed", b, format!("{where_}: recovered state is neither the state before nor after the in-flight call (nor a tolerated partial truncate/delete): {diff}")));
+            return out;
+        }
+    };
+    // C04: recovered next positions may not fall below what was handed out before the crash
+    let mut hw = high_water(d, b);
+    // an incarnation that did not survive (in-flight delete applied) has ended
+    hw.retain(|name, _| obs.queues.contains_key(name));
+    for (name, h) in &hw {
+        if let Some(oq) = obs.queues.get(name) {
+            let next = oq.last_position.map(|p| p + 1).unwrap_or(0);
+            if next <= *h {
+                out.failures.push(fail("C04", "next-regressed-after-crash", b, format!("{where_}: queue recovered with next position {} although position {} had been appended or truncated-to", next, h)));
+            }
+        }
+    }
+    // --- usable: continuation in lock-step, then a clean restart
+    stats.continuations += 1;
+    let mut cd = Driver::adopt(w, model, case.probe_seed ^ b as u64);
+    cd.light = true;
+    let ops: Vec<Op> = match cont {
+        Cont::Explicit(ops) => ops.to_vec(),
+        Cont::Generate(seed) => gen_continuation(&mut cd, seed, &hw, &mut out.failures, b, where_),
+    };
+    if let Cont::Explicit(_) = cont {
+        for op in &ops {
+            if cd.stopped {
+                break;
+            }
+            let o = cd.step(op.clone());
+            check_c04_cont(op, &o, &cd, &hw, &mut out.failures, b, where_);
+        }
+    }
+    out.cont_used = ops;
+    if let Some(f) = cd.failures.iter().find(|f| f.prop == "C05" || f.prop == "C01") {
+        out.failures.push(fail("C02", if f.prop == "C01" { "restart-after-recovery-diverged" } else { "continuation-diverged" }, b,
+            format!("{where_}: after recovery, continuation op {} diverged from a log that never crashed: {}", f.op_index, f.detail)));
+    }
+    if let Some(f) = cd.failures.iter().find(|f| f.prop == "C04") {
+        out.failures.push(fail("C04", "position-reused-after-crash", b, format!("{where_}: {}", f.detail)));
+    }
+    out
+}
+
+fn check_c04_cont(op: &Op, o: &Outcome, cd: &Driver, hw: &BTreeMap<String, u64>, failures: &mut Vec<Failure>, b: usize, where_: &str) {
+    if let (Op::Append { q, lens, .. }, Outcome::Appended { last: Some(last), .. }) = (op, o) {
+        if let Some(h) = hw.get(&cd.names[*q]) {
+            let first = last + 1 - (lens.len() as u64).min(last + 1);
+            // only meaningful while the queue is still the incarnation that was alive at the crash
+            let same_incarnation = !cd.steps.iter().any(|s| matches!(&s.op, Op::Delete { q: dq } if dq == q) && !s.outcome.is_err());
+            if same_incarnation && first <= *h {
+                failures.push(fail("C04", "position-reused-after-crash", b, format!("{where_}: after recovery {} was assigned positions {}..={} although position {} had already been appended or truncated-to", op.short(), first, last, h)));
+            }
+        }
+    }
+}
+
+/// Continuation: an append on every surviving queue, a truncate, some random ops, a final restart.
+fn gen_continuation(cd: &mut Driver, seed: u64, hw: &BTreeMap<String, u64>, failures: &mut Vec<Failure>, b: usize, where_: &str) -> Vec<Op> {
+    let mut rng = Rng::new(seed);
+    let mut ops: Vec<Op> = Vec::new();
+    let mut uid = 1_000_000u32 + (seed as u32 % 1000) * 100;
+    let nq = cd.names.len();
+    let mut run = |cd: &mut Driver, op: Op, ops: &mut Vec<Op>, failures: &mut Vec<Failure>| {
+        if cd.stopped {
+            return;
+        }
+        let o = cd.step(op.clone());
+        check_c04_cont(&op, &o, cd, hw, failures, b, where_);
+        ops.push(op);
+    };
+    let existing: Vec<usize> = (0..nq).filter(|&q| cd.model.queues.contains_key(&cd.names[q])).collect();
+    for &q in &existing {
+        uid += 2;
+        let len = if rng.chance(1, 4) { 20_000 + rng.below(30_000) as u32 } else { rng.below(200) as u32 };
+        run(cd, Op::Append { q, pos: None, lens: vec![len], uid }, &mut ops, failures);
+    }
+    let cfg = GenCfg { n_ops: 0, ..crate::gen::swarm(&mut rng, Profile::AlwaysFlush) };
+    let mut cfg = cfg;
+    cfg.n_queues = nq;
+    cfg.w[5] = 2;
+    let mut g = Gen::new(cfg, rng.fork(7));
+    g.next_uid = (uid >> 1) + 10;
+    let extra = 1 + rng.usize_below(6);
+    for _ in 0..extra {
+        if cd.stopped {
+            break;
+        }
+        let op = g.next(cd);
+        run(cd, op, &mut ops, failures);
+    }
+    if rng.chance(3, 10) && !existing.is_empty() {
+        // force a roll-over
+        let q = *rng.pick(&existing);
+        if cd.model.queues.contains_key(&cd.names[q]) {
+            uid = (g.next_uid << 1) + 100;
+            run(cd, Op::Append { q, pos: None, lens: vec![100_000, 40_000], uid }, &mut ops, failures);
+        }
+    }
+    run(cd, Op::Restart { policy: None }, &mut ops, failures);
+    ops
+}
+
+// ------------------------------------------------------------------ crash-point enumeration
+
+pub struct Point {
+    pub idx: usize,
+    pub byte: Option<usize>,
+    /// op in flight (== number of ops for the point after the last effect)
+    pub b: usize,
+    pub eff_in_op: usize,
+    pub class: u8,
+}
+
+/// Torn-write offsets: every byte for small writes in the thorough tier, boundary-biased sample otherwise.
+pub fn torn_offsets(len: usize, off_in_file: usize, thorough: bool, rng: &mut Rng) -> Vec<usize> {
+    let mut v: BTreeSet<usize> = BTreeSet::new();
+    if len <= 1 {
+        return Vec::new();
+    }
+    if thorough && len <= 512 {
+        return (1..len).collect();
+    }
+    for c in [1usize, 3, 4, 6, 7, 8, 11, 12, 18, 19, 23, len / 2, len.saturating_sub(8), len.saturating_sub(7), len - 1] {
+        if c >= 1 && c < len {
+            v.insert(c);
+        }
+    }
+    // block edges inside the write
+    let first_edge = BLOCK - off_in_file % BLOCK;
+    let mut e = first_edge;
+    while e < len {
+        for c in [e.saturating_sub(7), e.saturating_sub(1), e, e + 1, e + 6, e + 7, e + 8] {
+            if c >= 1 && c < len {
+                v.insert(c);
+            }
+        }
+        e += BLOCK;
+    }
+    let extra = if thorough { 64 } else { 4 };
+    for _ in 0..extra {
+        v.insert(1 + rng.usize_below(len - 1));
+    }
+    v.into_iter().collect()
+}
+
+/// All crash points of the phase-A trace (dedup: a boundary is listed when the image or the op in flight changed).
+pub fn enumerate_points(d: &Driver, thorough: bool, rng: &mut Rng) -> Vec<Point> {
+    let fs = d.world.fs.borrow();
+    let mut pts = Vec::new();
+    let mut last_b: Option<usize> = None;
+    let mut dirty = true;
+    for (i, e) in fs.trace.iter().enumerate() {
+        let b = e.op as usize;
+        let eff_in_op = i - d.steps[b].eff_start;
+        if dirty || last_b != Some(b) {
+            pts.push(Point { idx: i, byte: None, b, eff_in_op, class: 0 });
+            last_b = Some(b);
+            dirty = false;
+        }
+        if let Eff::Write { data, off, .. } = &e.eff {
+            for n in torn_offsets(data.len(), *off as usize, thorough, rng) {
+                pts.push(Point { idx: i, byte: Some(n), b, eff_in_op, class: 1 });
+            }
+        }
+        if e.eff.is_mutating() {
+            dirty = true;
+        }
+    }
+    pts.push(Point { idx: fs.trace.len(), byte: None, b: d.steps.len(), eff_in_op: 0, class: 0 });
+    pts
+}
+
+/// Incremental image builder over the trace (cheap per point).
+pub struct ImageWalker<'a> {
+    trace: &'a [Effect],
+    st: FsState,
+    pos: usize,
+}
+
+impl<'a> ImageWalker<'a> {
+    pub fn new(trace: &'a [Effect], base: &FsState) -> Self {
+        ImageWalker { trace, st: base.clone(), pos: 0 }
+    }
+    pub fn image_at(&mut self, idx: usize, byte: Option<usize>) -> Image {
+        assert!(idx >= self.pos);
+        while self.pos < idx {
+            self.st.apply(&self.trace[self.pos].eff);
+            self.pos += 1;
+        }
+        match (byte, self.trace.get(idx)) {
+            (Some(n), Some(e)) => {
+                let mut st2 = self.st.clone();
+                apply_partial(&mut st2, &e.eff, n);
+                st2.to_image()
+            }
+            _ => self.st.to_image(),
+        }
+    }
+}
+
+pub fn point_signature(d: &Driver, p: &Point, matched: &Option<Matched>) -> u64 {
+    let fs = d.world.fs.borrow();
+    let mut dg = crate::prng::Digest::new();
+    let eff = fs.trace.get(p.idx);
+    dg.u64(eff.map(|e| e.eff.class() as u64).unwrap_or(99));
+    dg.u64(if p.b < d.steps.len() { d.steps[p.b].op.kind() as u64 } else { 9 });
+    dg.u64(match p.byte {
+        None => 0,
+        Some(n) if n < 4 => 1,
+        Some(n) if n < 7 => 2,
+        Some(n) if n < 19 => 3,
+        Some(_) => 4,
+    });
+    if let Some(Effect { eff: Eff::Write { off, data, .. }, .. }) = eff {
+        dg.u64((*off as usize % BLOCK / 4096) as u64);
+        dg.u64((data.len().min(70000) / 5000) as u64);
+    }
+    dg.u64(match matched {
+        Some(Matched::Exact(j)) => (*j == p.b) as u64,
+        Some(Matched::Partial) => 2,
+        _ => 3,
+    });
+    dg.u64(d.probes.max_files.min(6));
+    dg.u64(d.steps[p.b.min(d.steps.len() - 1)].policy.tag());
+    dg.0
+}
+
+// ------------------------------------------------------------------ C03: persisted-superset oracle
+
+#[derive(Clone, Copy, PartialEq, Eq, PartialOrd, Ord, Debug)]
+pub enum Level {
+    Proc,
+    Power,
+}
+
+pub fn obligation(step: &crate::run::Step) -> Option<Level> {
+    if step.outcome.is_err() || step.expected.is_err() {
+        return None;
+    }
+    match (&step.op, &step.expected) {
+        (Op::Create { .. }, _) | (Op::Delete { .. }, _) => Some(Level::Power),
+        (Op::Persist { fsync: true }, _) => Some(Level::Power),
+        (Op::Persist { fsync: false }, _) => Some(Level::Proc),
+        (Op::Append { .. }, Outcome::Appended { last: Some(_), .. }) | (Op::Truncate { .. }, _) => match step.policy {
+            Policy::Always { fsync: true } => Some(Level::Power),
+            Policy::Always { fsync: false } => Some(Level::Proc),
+            _ => None,
+        },
+        _ => None,
+    }
+}
+
+/// Index of the last op < b whose return obliges persistence at `level` or stronger.
+pub fn persist_point(d: &Driver, b: usize, level: Level) -> Option<usize> {
+    (0..b.min(d.steps.len())).rev().find(|&i| obligation(&d.steps[i]).map(|l| l >= level).unwrap_or(false))
+}
+
+/// PS(P): the recovered state contains everything persisted at P and invents nothing.
+pub fn persisted_superset(d: &Driver, p: Option<usize>, b: usize, obs: &Obs) -> Option<(String, String)> {
+    let n = d.steps.len();
+    let mp = &d.models[p.map(|p| p + 1).unwrap_or(0)];
+    let lo = p.map(|p| p + 1).unwrap_or(0);
+    let hi = b.min(n.saturating_sub(1));
+    let later: Vec<&Op> = if lo <= hi && n > 0 { d.steps[lo..=hi].iter().map(|s| &s.op).collect() } else { Vec::new() };
+    let qidx = |name: &str| d.names.iter().position(|x| x == name);
+    // 1. existence
+    for (name, mq) in &mp.queues {
+        let q = qidx(name);
+        let deleted_later = later.iter().any(|op| matches!(op, Op::Delete { q: dq } if Some(*dq) == q));
+        if deleted_later {
+            continue;
+        }
+        let Some(oq) = obs.queues.get(name) else {
+            return Some(("persisted-queue-missing".into(), format!("queue (name {} B) existed at the persist point (op {:?}) and is not deleted afterwards, but is absent after recovery", name.len(), p)));
+        };
+        // 2. records
+        let max_trunc: Option<u64> = later.iter().filter_map(|op| match op { Op::Truncate { q: tq, upto } if Some(*tq) == q => Some(*upto), _ => None }).max();
+        let must: Vec<Rec> = mq.recs.iter().filter(|r| max_trunc.map(|t| r.pos > t).unwrap_or(true)).copied().collect();
+        let got: Vec<Rec> = oq.recs.iter().filter(|r| must.binary_search_by_key(&r.pos, |x| x.pos).is_ok()).copied().collect();
+        if got != must {
+            let missing = must.iter().find(|r| !oq.recs.contains(r)).map(|r| r.pos);
+            return Some(("persisted-record-lost".into(), format!("queue (name {} B): {} records persisted at op {:?} and not truncated afterwards, {} of them recovered intact (first missing/altered position {:?})", name.len(), must.len(), p, got.iter().filter(|r| must.contains(r)).count(), missing)));
+        }
+        // 3. next position
+        let next = oq.last_position.map(|x| x + 1).unwrap_or(0);
+        if next < mq.next {
+            return Some(("persisted-position-regressed".into(), format!("queue (name {} B): next position {} after recovery, {} at the persist point (op {:?})", name.len(), next, mq.next, p)));
+        }
+    }
+    for name in obs.queues.keys() {
+        if !mp.queues.contains_key(name) {
+            let q = qidx(name);
+            let created_later = later.iter().any(|op| matches!(op, Op::Create { q: cq } if Some(*cq) == q));
+            if !created_later {
+                return Some(("deleted-queue-reappeared".into(), format!("queue (name {} B) did not exist at the persist point (op {:?}) and is not created afterwards, but exists after recovery", name.len(), p)));
+            }
+        }
+    }
+    // 4. nothing invented
+    for (name, oq) in &obs.queues {
+        let Some(q) = qidx(name) else {
+            return Some(("invented-queue".into(), format!("recovered an unknown queue name ({} B)", name.len())));
+        };
+        // records appended to this name since its last deletion at or before P
+        let start = (0..lo.min(n)).rev().find(|&i| matches!(&d.steps[i].op, Op::Delete { q: dq } if *dq == q) && !d.steps[i].expected.is_err()).map(|i| i + 1).unwrap_or(0);
+        let mut allowed: BTreeSet<Rec> = BTreeSet::new();
+        for s in d.steps.iter().take(hi + 1).skip(start) {
+            if let (Op::Append { q: aq, lens, uid, .. }, Outcome::Appended { last: Some(last), .. }) = (&s.op, &s.expected) {
+                if *aq == q {
+                    let first = last + 1 - lens.len() as u64;
+                    for (k, &l) in lens.iter().enumerate() {
+                        allowed.insert(Rec::of(first + k as u64, &crate::model::payload(*uid, k as u32, l as usize)));
+                    }
+                }
+            }
+        }
+        let mut prev: Option<u64> = None;
+        for r in &oq.recs {
+            if !allowed.contains(r) {
+                return Some(("invented-record".into(), format!("queue (name {} B): recovered record at position {} ({} B) was never appended to this incarnation", name.len(), r.pos, r.len)));
+            }
+            if prev.map(|p| r.pos <= p).unwrap_or(false) {
+                return Some(("positions-not-increasing".into(), format!("queue (name {} B): positions not strictly increasing at {}", name.len(), r.pos)));
+            }
+            prev = Some(r.pos);
+        }
+    }
+    None
+}
+
+pub fn test_c03(d: &Driver, case: &Case, b: usize, image: &Image, level: Level, where_: &str) -> (Vec<Failure>, bool) {
+    let n = d.steps.len();
+    let policy = if b < n { d.steps[b].policy } else { d.steps.last().map(|s| s.policy).unwrap_or(case.policy) };
+    let p = persist_point(d, b, level);
+    let mut failures = Vec::new();
+    match recover(image, &d.names, policy, &case.knobs) {
+        Err((e, _)) => {
+            if p.is_some() {
+                failures.push(fail("C03", "open-failed-after-persist", b, format!("{where_}: {} although op {:?} had been persisted", open_fail_text(&e), p)));
+            }
+            (failures, false)
+        }
+        Ok((_w, obs)) => {
+            if let Some((clause, msg)) = persisted_superset(d, p, b, &obs) {
+                failures.push(fail("C03", &clause, b, format!("{where_} (persist point: op {:?}, loss model {:?}): {msg}", p, level)));
+            }
+            let prefix = matches!(match_allowed(d, b, &obs), Matched::Exact(_) | Matched::Partial);
+            (failures, prefix)
+        }
+    }
+}
+
+// ------------------------------------------------------------------ replay entry point
+
+pub fn evaluate_crash(prop: &str, case: &Case, fault: &Fault) -> Vec<Failure> {
+    let Fault::Crash { at, second, cont } = fault else { return Vec::new() };
+    let d = crate::fault::eval_hist(case);
+    if !d.conformance_ok() {
+        return Vec::new();
+    }
+    let Some(idx) = global_index(&d, at) else { return Vec::new() };
+    let b = if at.op < d.steps.len() { at.op } else { d.steps.len() };
+    // the crash point must really belong to op b
+    if at.op < d.steps.len() && idx >= d.steps[at.op].eff_end && !(idx == d.steps[at.op].eff_end && at.op + 1 == d.steps.len()) {
+        // pointing past the op's effects: treat as the boundary before the next op's first effect
+    }
+    let where_ = format!("crash at effect {} of op {} (byte {:?})", at.eff_in_op, at.op, at.byte);
+    let mut out: Vec<Failure> = Vec::new();
+    match prop {
+        "C03" => {
+            let (image, level) = match at.powerloss {
+                Some(seed) => {
+                    let fs = d.world.fs.borrow();
+                    (powerloss_image(&fs.trace, &fs.bases[0].1, idx, at.byte, seed), Level::Power)
+                }
+                None => (os_image_at(&d, idx, at.byte), Level::Proc),
+            };
+            let (f, _) = test_c03(&d, case, b, &image, level, &where_);
+            out.extend(f);
+        }
+        _ => {
+            let image = os_image_at(&d, idx, at.byte);
+            let mut stats = CrashStats::default();
+            let o = test_process_crash(&d, case, b, &image, Cont::Explicit(cont), &mut stats, *second);
+            out.extend(o.failures);
+        }
+    }
+    let _ = mix(&[0]);
+    out.into_iter().filter(|f| f.prop == prop).collect()
 }
